@@ -352,6 +352,18 @@ func runC05(c *Ctx) {
 			run(steps, "mode-nonmember")
 		}
 	}
+	// (iii-c) directed: capability traffic after a completed negotiation (cap-notify NEW/DEL, a second LS, late ACK/NAK)
+	for _, tail := range [][]string{
+		{"R:srv CAP me NEW :away-notify", "R:srv CAP me ACK :away-notify", "R:srv CAP me DEL :away-notify", "R:srv CAP me NEW :batch extended-join"},
+		{"R:srv CAP me LS * :account-tag", "R:srv CAP me LS :chghost", "R:srv CAP me ACK :account-tag chghost", "R:srv CAP me NEW :server-time"},
+		{"R:srv CAP me NAK :foo", "R:srv CAP me NEW :multi-prefix", "R:srv CAP me DEL :multi-prefix message-tags", "R:srv CAP me NEW :message-tags=x"},
+		{"R:srv CAP me ACK :", "R:srv CAP me NEW :", "R:srv CAP me NEW", "R:srv CAP me DEL", "R:srv CAP me LS"},
+	} {
+		steps := []string{"R:srv CAP * LS :multi-prefix message-tags", "R:srv CAP * ACK :multi-prefix message-tags", "R:srv 001 me :Welcome", "D"}
+		steps = append(steps, tail...)
+		steps = append(steps, "D", "R:me!u@h JOIN #a", "D")
+		run(steps, "cap-after-negotiation")
+	}
 	// (iv) directed: malformed ISUPPORT values for the tokens the tracker consumes, then the events that use them
 	for _, tok := range []string{"PREFIX=(", "PREFIX=()", "PREFIX=)", "PREFIX=)(", "PREFIX=(o", "PREFIX=(o)", "PREFIX=(ov)@", "PREFIX=(o)@+", "PREFIX=",
 		"PREFIX", "PREFIX=((ov))@+", "PREFIX=(ov)@+x", "PREFIX=(qaohv)~&@%+", "PREFIX=@+", "PREFIX=(ov)", "PREFIX=(\x01)\x01",
